@@ -175,8 +175,20 @@ func (ms *MessageStreamer) Go(ctx context.Context, conn StreamConnection) error 
 				mu.Unlock()
 			}
 			if len(msg.Delay) != 0 {
-				if err := ms.doDelay(ctx, msg.Delay, time.Duration(msg.DelaySeconds*float64(time.Second))); err != nil {
+				delay := time.Duration(msg.DelaySeconds * float64(time.Second))
+				if err := ms.doDelay(ctx, msg.Delay, delay); err != nil {
 					return err
+				}
+				if delay <= 0 {
+					// a non-positive deadline is a nack (the only form a gRPC client
+					// has): the client no longer holds these messages, so they must
+					// stop counting against its flow control limits
+					mu.Lock()
+					for _, id := range msg.Delay {
+						delete(pending, id)
+					}
+					tryWake()
+					mu.Unlock()
 				}
 			}
 		}
